@@ -10,7 +10,7 @@
      with_off o ls    each line paired with the offset just after its newline, o = offset of ls's first byte;
      st_at o sk       job state {curOffset = o; tail = []; shouldSkip = sk};
      nolimit          max_event_size = 0.                                                              *)
-From Verif Require Import Base.Sx Base.GoSem Model.Worker Proofs.Worker Proofs.WorkerMaint.
+From Verif Require Import Base.Sx Base.GoSem Model.Worker Proofs.Worker Proofs.WorkerMaint Proofs.WorkerStreams.
 
 (* --- the specification functions mean what their names say --------------------------------- *)
 Theorem c06_split_lines_is_the_line_split :
@@ -388,6 +388,107 @@ Theorem c06_event_of_a_line :
   end.
 Proof. exact events_of_line. Qed.
 Print Assumptions c06_event_of_a_line.
+
+(* --- streams (which 9 | 10: the real file Plugin as the pipeline's input, a job resumed from the saved offsets of several
+   streams). dc = ANY decoder function (admitted bytes -> stream name, payload, partial flag; None = undecodable), sv = ANY
+   table of saved stream offsets, sc = the CRI short-cut of Pipeline.In on / off.
+     pass_event sv s off   Plugin.PassEvent: no saved offset for s, or saved(s) < off
+     sdecoded dc c es      the (offset, stream, payload) of the admitted, decodable ones among the (offset, data) pairs es
+     sdeliver dc sc sv c es  what reaches the output: short-cut, then PassEvent, on every admitted decoded line
+     passed sv e           pass_event sv (stream of e) (offset of e);   of_stream s e   e belongs to stream s ------------- *)
+Theorem c06_pass_event_rule :
+  forall sv s off, pass_event sv s off = match saved_get sv s with None => true | Some o => o <? off end.
+Proof. exact pass_event_rule. Qed.
+Print Assumptions c06_pass_event_rule.
+
+(* the line that ends exactly AT the saved offset of its stream - the last one committed before the restart - is not
+   delivered again; exactly the offsets above it are *)
+Theorem c06_line_at_the_saved_offset_is_not_delivered_again :
+  forall sv s o, saved_get sv s = Some o ->
+  pass_event sv s o = false /\ (forall off, pass_event sv s off = true <-> o < off).
+Proof. exact pass_event_at_saved_offset. Qed.
+Print Assumptions c06_line_at_the_saved_offset_is_not_delivered_again.
+
+Theorem c06_delivered_is_the_pass_event_filter :
+  forall dc sc sv c es, sdeliver dc sc sv c es = filter (passed sv) (sdecoded dc c es).
+Proof. exact sdeliver_filter. Qed.
+Print Assumptions c06_delivered_is_the_pass_event_filter.
+
+Theorem c06_in_shortcut_is_never_a_decision :
+  forall dc sc sc' sv c es, sdeliver dc sc sv c es = sdeliver dc sc' sv c es.
+Proof. exact sdeliver_shortcut_irrelevant. Qed.
+Print Assumptions c06_in_shortcut_is_never_a_decision.
+
+(* every configuration, start offset, pass and read structure, decoder, table of saved offsets: the events of stream s that
+   reach the output = the complete lines of s in the content (admitted, decodable) that end ABOVE saved(s) - all of them
+   when s has no saved offset -, in order *)
+Theorem c06_stream_gets_exactly_its_lines_above_the_saved_offset :
+  forall dc sc sv c o sk0 rs s, 0 <= wmax c ->
+  filter (of_stream s) (sdeliver dc sc sv c (fst (rounds c (st_at o sk0) rs)))
+  = filter (fun e => above (saved_get sv s) (ev_off e))
+           (filter (of_stream s) (sdecoded dc c (spec_emits c sk0 o (flat rs)))).
+Proof. exact worker_stream_events. Qed.
+Print Assumptions c06_stream_gets_exactly_its_lines_above_the_saved_offset.
+
+Theorem c06_worker_stream_events :
+  forall dc sc sv c o sk0 rs, 0 <= wmax c ->
+  sdeliver dc sc sv c (fst (rounds c (st_at o sk0) rs)) = filter (passed sv) (sdecoded dc c (spec_emits c sk0 o (flat rs))).
+Proof. exact worker_events_filtered. Qed.
+Print Assumptions c06_worker_stream_events.
+
+(* once: the offsets of the delivered events increase strictly (asc o l: every element of l is above its predecessor, the
+   first above o) *)
+Theorem c06_delivered_offsets_increase :
+  forall dc sc sv c o sk0 rs, 0 <= wmax c ->
+  asc o (map ev_off (sdeliver dc sc sv c (fst (rounds c (st_at o sk0) rs)))).
+Proof. exact delivered_offsets_increase. Qed.
+Print Assumptions c06_delivered_offsets_increase.
+
+(* whatever is handed over (a compressed job re-reads from in front of the smallest saved offset): nothing that ends at or
+   below the saved offset of its stream reaches the output *)
+Theorem c06_nothing_committed_is_delivered_again :
+  forall dc sc sv c es, Forall (fun e => passed sv e = true) (sdeliver dc sc sv c es).
+Proof. exact sdeliver_all_passed. Qed.
+Print Assumptions c06_nothing_committed_is_delivered_again.
+
+(* jobProvider.commit moves the saved offset of a delivered event's stream at some time during the pass: committing every
+   event at once (sdeliver_upd) and not at all (sdeliver) give the same events *)
+Theorem c06_commit_timing_is_irrelevant :
+  forall dc sc sv c o sk0 b,
+  sdeliver_upd dc sc sv c (spec_emits c sk0 o b) = sdeliver dc sc sv c (spec_emits c sk0 o b).
+Proof. exact commit_timing_irrelevant. Qed.
+Print Assumptions c06_commit_timing_is_irrelevant.
+
+(* saved offsets behind the end of the file (truncateJob sets every saved offset to 0): every line passes again *)
+Theorem c06_after_truncation_everything_passes :
+  forall sv s off, 0 < off -> pass_event (saved_zero sv) s off = true /\ in_shortcut (saved_zero sv) s off = false.
+Proof. exact saved_zero_passes. Qed.
+Print Assumptions c06_after_truncation_everything_passes.
+
+(* the compressed pass of a job resumed from the saved offsets sv whose minimum m is a line end of the content *)
+Theorem c06_lz4_stream_events :
+  forall dc sc (sv : saved) n content offs (o : Z),
+  (0 < n)%nat -> map snd sv = o :: offs -> let m := min_list o offs in
+  0 <= m <= len content -> snd (split_lines (take m content)) = [] ->
+  let k := {| z_cfg := nolimit; z_offs := map snd sv; z_frames := [content]; z_n := n |} in
+  let '(L, es, st) := z_pass k in
+  filter (fun e => m <? ev_off e) (sdeliver dc sc sv nolimit es)
+  = filter (passed sv) (sdecoded dc nolimit (with_off m (fst (split_lines (drop m content))))).
+Proof. exact lz4_stream_events. Qed.
+Print Assumptions c06_lz4_stream_events.
+
+(* non-vacuity: five json lines of 24 bytes, streams a b a b a; the previous run committed a through line 3 (offset 72) and
+   b through line 2 (offset 48): reading restarts at 48, lines 3 4 5 are read, line 3 (a, ends AT 72) is recognised as
+   delivered, lines 4 (b) and 5 (a) reach the output; with b unsaved line 3 is still dropped *)
+Example c06_streams_nonvacuous :
+  let rest := [123;34;115;116;114;101;97;109;34;58;34;97;34;44;34;109;34;58;34;110;50;34;125;10;123;34;115;116;114;101;97;109;34;58;34;98;34;44;34;109;34;58;34;110;51;34;125;10;123;34;115;116;114;101;97;109;34;58;34;97;34;44;34;109;34;58;34;110;52;34;125;10]%N in
+  let sv := [([97]%N, 72); ([98]%N, 48)] in
+  let E := fst (rounds nolimit (st_at 48 false) [chunks 7 rest]) in
+  map ev_off (sdecoded json_decode nolimit E) = [72; 96; 120]
+  /\ sdeliver json_decode false sv nolimit E = [(96, [98]%N, [110;51]%N); (120, [97]%N, [110;52]%N)]
+  /\ map ev_off (sdeliver json_decode false [([97]%N, 72)] nolimit E) = [96; 120]
+  /\ map ev_off (sdeliver json_decode false [([97]%N, 71)] nolimit E) = [72; 96; 120].
+Proof. repeat split; vm_compute; reflexivity. Qed.
 
 (* non-vacuity: "ab\ncd" | pass | truncate to 1 | write notification (detects, restarts at 0, reads "a" into the tail in
    the same step) | "\n" | remove_after tick on the grown file (reads "a\n"@2 first) | remove_after tick (idle: deleted);
